@@ -8,7 +8,7 @@ after and passes everything else through; SIBLING-NORMALISE for the StaticReques
 from ..gfi import distribution, static_lang
 from ..gfi.common import is_zero, run_for
 from ..gfi.distribution import is_empty_chm, is_tag, is_update
-from ..rules import is_call, is_mcall
+from ..rules import Arms, is_call, is_mcall
 from ..terms import C, Evaluator, G, P, is_t, mk_proj, show
 
 GF = "core/generative/generative_function.py"
@@ -74,7 +74,7 @@ def request_combinators(chk, prog):
     er = prog.cls("EmptyRequest", RQ)
     W = lambda c, m: f"{c.module.rel}:{c.methods[m].lineno}"
     r = ev.eval_fn(er.methods["edit"], er.module, er)
-    got = {}
+    got = Arms()
     for conds, ret in r.returns:
         guard = [t for t, p in conds if p and is_call(t, "static_check_no_change")]
         got["shortcut" if guard else "else"] = (ret, guard)
